@@ -529,6 +529,9 @@ func (s *vScenario) projectJob(kind string) map[string]any {
 		if in.phase == "gate" {
 			j["M1"] = vBits(in.result[1].(*tag).Matches)
 			j["err"] = errStr(in.result[2])
+			if j["def"].(vDef).K == "E" { // this definition is meant to fail
+				j["err"] = ""
+			}
 		}
 	case "merge":
 		j["off"] = in.start[0].(int) + 1
@@ -625,8 +628,13 @@ func (s *vScenario) observe(st *vState) *vObs {
 		}
 	}
 	sort.Slice(o.Vis, func(i, j int) bool { return o.Vis[i].ID < o.Vis[j].ID })
+	// (a definition that cannot be evaluated has no truth: C06 is not judged while such a tag exists)
+	hasErrTag := false
+	for _, t := range st.Tags {
+		hasErrTag = hasErrTag || t.Def.K == "E"
+	}
 	// what the HTTP API shows: a view that evaluates the undecided tags on demand for the streams it lists
-	if len(v.indexes) != 0 {
+	if len(v.indexes) != 0 && !hasErrTag {
 		pv := s.mgr.GetView()
 		if err := pv.AllStreams(ctx, func(sc StreamContext) error {
 			tags, err := sc.AllTags()
@@ -652,7 +660,7 @@ func (s *vScenario) observe(st *vState) *vObs {
 				continue
 			}
 			td, ok := v.tagDetails[n]
-			if !ok {
+			if !ok || st.Tags[n].Def.K == "E" {
 				continue
 			}
 			f := td.Conditions.Features()
